@@ -416,3 +416,10 @@ PLAN["C05"]["thorough"]["tests"][0]["shards"] = max(1, PLAN["C05"]["thorough"]["
 PLAN["C05"]["thorough"]["tests"].append({"run": "TestC05Restart", "shards": 3, "checks": 700, "timeout": 840})
 PLAN["C05"]["rule"] += ("; TestC05Restart: faulty write histories (a third of the failures are the replica's own disk failing) followed by a stop of every replica and a restart of the volume with the replicas "
                         "registering in a generated order: every acknowledged write that a majority of RF held is served again - a replica detached for failing a write does not come back as an up-to-date copy")
+
+# the scripted bootstrap cases cost 0.6-0.9 s each (registration through REST, real liveness probes):
+# bound the thorough tier by a case count that fits its time guard
+for _pid, _t in (("C04", "TestC04Bootstrap"), ("C18", "TestC18Bootstrap"), ("C03", "TestC03Bootstrap"), ("C09", "TestC09")):
+    for _x in PLAN[_pid]["thorough"]["tests"]:
+        if _x["run"] == _t:
+            _x["checks"] = 700
